@@ -144,6 +144,11 @@ def targets(names):
         res = "caught" if rc != 0 and viol else "MISSED"
         if viol and all("no-failing-input-found" in l for l in viol):
             res = "caught (no-failing-input-found)"
+        try:
+            meta["target_check"] = {"check": pid, "result": res}     # recorded by `targets` (scratch worktree, quick tier)
+            json.dump(meta, open(os.path.join(d, "meta.json"), "w"), indent=1)
+        except Exception:
+            pass
         return name, pid, res
     import concurrent.futures
     bad = 0
@@ -162,8 +167,11 @@ def summary():
         if not os.path.exists(f):
             continue
         m = json.load(open(f))
-        tgt = m["property"]
+        tgt = m.get("target_override", m["property"])
         r = m.get("checks_run", {}).get(tgt, {})
+        tc = m.get("target_check", {})
+        if tc.get("check") == tgt and tc.get("result", "").startswith("caught"):
+            r = {"exit": 1, "no_failing_input": "no-failing-input-found" in tc["result"]}
         rows.append("| %s | %s | %s | %s | %s |" % (name, tgt, (m.get("summary", "") or "").replace("|", "/")[:160],
                     ("yes" + (" (no-failing-input-found)" if r.get("no_failing_input") else "")) if r.get("exit") else "NO",
                     ", ".join(m.get("matrix_caught_by", [])) or "-"))
